@@ -843,8 +843,61 @@ int main(int argc, char** argv) {
       byname[f.meta.name] = &f;
       fams.push_back(f.meta);
     }
-    // cap the per-text path set for the big families
+    // LI: array INDEX sweep. Arrays of n scalars of width w, complete or cut short, looked up at indices far beyond the
+    // small ones of the path alphabet (a scanner that counts elements block-wise has its own end-of-input arithmetic)
+    static const unsigned LI_N[] = {0, 1, 2, 10, 20, 31, 32, 33, 34, 40, 41, 63, 64, 65, 70, 100, 130};
+    static const unsigned LI_W[] = {1, 2, 3, 6, 12};
+    static const int LI_I[] = {0, 1, 30, 31, 32, 33, 34, 35, 40, 63, 64, 65, 66, 99, 100, 101, 129, 130, 131, 1000, 65536, 2147483647};
+    static const unsigned LI_CUT[] = {0, 1, 2, 3, 7, 13, 31, 32, 33, 63, 64, 65};
+    vr::Family fli;
+    fli.name = "LI_index_sweep";
+    fli.count = (uint64_t)(sizeof LI_N / 4) * (sizeof LI_W / 4) * (sizeof LI_CUT / 4) * 3;
+    fli.group = "LI";
+    fli.chunk = 16;
+    fli.rule = "arrays of n in {0,1,2,10,20,31..34,40,41,63..65,70,100,130} scalars of width 1,2,3,6,12 bytes (numbers; width 6 also as strings), alone / as a member value / followed by another element, complete or with the last 1,2,3,7,13,31..33,63..65 bytes cut off, each looked up at 22 indices from 0 to 2^31-1 (around 32, 64, n); exact-size heap block (ASan) / page-end and view placements (production)";
+    fams.push_back(fli);
     check = [&](const vr::Family& f, uint64_t idx, vr::Ctx& ctx) {
+      if (f.name == "LI_index_sweep") {
+        unsigned wrap = (unsigned)(idx % 3);
+        idx /= 3;
+        unsigned cut = LI_CUT[idx % (sizeof LI_CUT / 4)];
+        idx /= (sizeof LI_CUT / 4);
+        unsigned w = LI_W[idx % (sizeof LI_W / 4)];
+        unsigned n = LI_N[idx / (sizeof LI_W / 4)];
+        std::string arr = "[";
+        for (unsigned i = 0; i < n; i++) {
+          if (i) arr += ",";
+          std::string e = std::to_string(100000000000ull + i).substr(12 - std::min(w, 12u));
+          if (e[0] == '0') e[0] = '7';
+          if (w == 6 && wrap == 2) e = "\"" + e.substr(2) + "\"";
+          arr += e;
+        }
+        arr += "]";
+        std::string text = wrap == 0 ? arr : wrap == 1 ? "{\"a\":" + arr + ",\"b\":1}" : "[" + arr + ",7]";
+        if (cut >= text.size()) {
+          ctx.skip();
+          return;
+        }
+        text.resize(text.size() - cut);
+        if (ctx.want_sample) ctx.sample("n=" + std::to_string(n) + " w=" + std::to_string(w) + " wrap " + std::to_string(wrap) + " cut " + std::to_string(cut));
+        ctx.nontriv();
+        std::vector<uint8_t> scratch(text.size() + 256);
+#if HAVE_ASAN
+        ExactBuf b(text);
+#else
+        const uint8_t* pe = guard.at_end(text);
+#endif
+        for (size_t k = 0; k < sizeof LI_I / sizeof LI_I[0]; k++) {
+          JsonPointer jp = wrap == 0 ? JsonPointer({JsonPointerNode(LI_I[k])}) : wrap == 1 ? JsonPointer({JsonPointerNode("a"), JsonPointerNode(LI_I[k])}) : JsonPointer({JsonPointerNode(0), JsonPointerNode(LI_I[k])});
+#if HAVE_ASAN
+          C11Res alone = c11_call((const uint8_t*)b.p, b.n, jp, text, "exact-heap", ctx, true);
+#else
+          C11Res alone = c11_call(pe, text.size(), jp, text, "page-end", ctx, true);
+#endif
+          if (k % 4 == 0) c11_views(text, jp, 0, alone, scratch.data(), ctx);
+        }
+        return;
+      }
       const fam::TextFamily* t = byname[f.name];
       std::string text;
       if (!t->gen(idx, text)) {
